@@ -642,11 +642,57 @@ def _bg_enumerate(args):
     from maze_dataset.tokenization.all_tokenizers import get_all_tokenizers
 
     t0 = time.time()
-    toks = get_all_tokenizers()
+    with _bounded_enumeration():
+        try:
+            toks = get_all_tokenizers()
+        except (MemoryError, TimeoutError) as e:
+            return -1, f"{type(e).__name__} after {time.time() - t0:.0f} s", time.time() - t0
     n = len(toks)
     rng = np.random.default_rng(seed + 17)
     idx = sorted(set(int(i) for i in rng.integers(0, n, size=nsample)) | {0, n - 1}) if n else []
     return n, [(i, struct_of(toks[i])) for i in idx], time.time() - t0
+
+
+ENUM_SECONDS = 420  # the unchanged enumeration takes ~45 s (5.9 million objects, ~3 GB)
+ENUM_BYTES = 24 << 30
+
+
+class _bounded_enumeration:
+    """guard around the real get_all_tokenizers(): a broken enumerator can multiply the space by orders of magnitude;
+    stop it by address-space limit and alarm instead of taking the machine down"""
+
+    def __enter__(self):
+        import resource
+        import signal
+
+        self._old = resource.getrlimit(resource.RLIMIT_AS)
+        try:
+            resource.setrlimit(resource.RLIMIT_AS, (ENUM_BYTES if self._old[1] in (resource.RLIM_INFINITY, -1) else min(ENUM_BYTES, self._old[1]), self._old[1]))
+        except (ValueError, OSError):
+            pass
+
+        def on_alarm(_sig, _frm):
+            raise TimeoutError("enumeration exceeded the time budget")
+
+        try:
+            self._old_handler = signal.signal(signal.SIGALRM, on_alarm)
+            signal.alarm(ENUM_SECONDS)
+        except ValueError:  # not in the main thread
+            self._old_handler = None
+        return self
+
+    def __exit__(self, *exc):
+        import resource
+        import signal
+
+        if self._old_handler is not None:
+            signal.alarm(0)
+            signal.signal(signal.SIGALRM, self._old_handler)
+        try:
+            resource.setrlimit(resource.RLIMIT_AS, self._old)
+        except (ValueError, OSError):
+            pass
+        return False
 
 
 _ALL = {}
@@ -761,7 +807,13 @@ def full_space(res, raw, seed):
     # 12 million live objects: keep the cyclic collector away from them (it would rewrite every object header, which
     # after fork() copies the whole heap into each of the 16 workers)
     gc.disable()
-    toks = get_all_tokenizers()
+    try:
+        with _bounded_enumeration():
+            toks = get_all_tokenizers()
+    except (MemoryError, TimeoutError) as e:
+        gc.enable()
+        res.fail("C15:count", f"get_all_tokenizers() did not complete ({type(e).__name__} after {time.time() - t0:.0f} s; limits {ENUM_SECONDS} s / {ENUM_BYTES >> 30} GB, the predicted {spec_count(MTM(), True)} configurations need ~45 s / ~3 GB)", {"check": "count"}, repr(e))
+        return -1
     gc.freeze()
     n = len(toks)
     tp = MTM()
@@ -945,9 +997,12 @@ def run(tier, seed):
         if tier == "thorough":
             full_space(c_tok, r_tok, seed)
         else:
-            n, positions, secs = bg.get(timeout=900)
+            n, positions, secs = bg.get(timeout=ENUM_SECONDS + 120)
+            if n < 0:
+                c_tok.fail("C15:count", f"get_all_tokenizers() did not complete ({positions}; limits {ENUM_SECONDS} s / {ENUM_BYTES >> 30} GB, the predicted {total} configurations need ~45 s / ~3 GB)", {"check": "count"}, positions)
+                positions = []
             r_tok.seen(("count", n), nontrivial=True, sample={"len(get_all_tokenizers())": n, "type space minus rules": total, "figure in the statement": EXPECTED_TOTAL, "seconds_to_enumerate": round(secs, 1)})
-            if n != total:
+            if n >= 0 and n != total:
                 c_tok.fail("C15:count", f"len(get_all_tokenizers()) = {n}, the type space minus the documented rules has {total}", {"check": "count"}, n)
             seen_pos = set()
             for i, s in positions:
@@ -1032,7 +1087,7 @@ def replay(check_name, inp):
     elif kind == "count":
         n, _pos, _secs = _bg_enumerate((0, 0))
         total = spec_count(MTM(), True)
-        if n != total:
+        if n != total:  # includes n == -1: the enumeration did not complete
             res.fail("C15:count", f"len(get_all_tokenizers()) = {n}, the enumerator says {total}", inp, n)
     else:
         print("  unknown replay input")
